@@ -8,7 +8,7 @@ use std::num::NonZeroU64;
 use std::panic::{catch_unwind, AssertUnwindSafe};
 
 use lzma_rust2::{
-    CheckType, EncodeMode, FilterConfig, LZIPOptions, LZIPReader, LZIPReaderMT, LZIPWriter, LZMA2Options, LZMA2Reader,
+    CheckType, EncodeMode, FilterConfig, LZIPOptions, LZIPReader, LZIPReaderMT, LZIPWriter, LZMA2Options, LZMA2Reader, LZMA2ReaderMT,
     LZMA2Writer, LZMAOptions, LZMAReader, LZMAWriter, MFType, XZOptions, XZReader, XZWriter,
 };
 use serde::Deserialize;
@@ -456,7 +456,13 @@ fn run_lzma2_write(s: &Scn) -> Value {
     let mut rd = LZMA2Reader::new(&mut src, dict, None);
     let (out, err) = drain(&mut rd, &s.reads);
     drop(rd);
-    json!({"outcome":"ok","calls":res,"file_len":file.len(),"recs":recs,"walk_len":walk.len,"walk_usize":walk.usize_total,
+    // multi-threaded reader: same bytes, and the number of units it cut
+    let mt = {
+        let mut rd = LZMA2ReaderMT::new(Cursor::new(file.clone()), dict, None, 2);
+        let (o2, e2) = drain(&mut rd, &s.reads);
+        json!({"ok":e2.is_none(),"err":e2,"cmp":cmp(&o2,&want),"chunk_count":rd.chunk_count()})
+    };
+    json!({"outcome":"ok","calls":res,"file_len":file.len(),"recs":recs,"walk_len":walk.len,"walk_usize":walk.usize_total,"mt":mt,
            "rt":{"ok":err.is_none(),"err":err,"cmp":cmp(&out,&want)},"consumed":src.pos,
            "ref":reference("lzma2",&file,&want,dict),"input_len":want.len(),"digest":gen::digest(&file)})
 }
